@@ -908,7 +908,7 @@ def _xs(t, rng, hs, out):
         if len(alls) != exp["ndags"] or len(set(keys)) != len(keys) or set(keys) != set(want):
             fail("ExhaustiveSearch.all_scores", "not_every_dag_exactly_once", {"n": len(alls), "distinct": len(set(keys))}, exp["ndags"])
             continue
-        bad = [(k, float(s)) for (s, _), k in zip(alls, keys) if abs(float(s) - want[k]) > 1e-9]
+        bad = [(k, float(s)) for (s, _), k in zip(alls, keys) if not (abs(float(s) - want[k]) <= 1e-9)]
         if bad:
             fail("ExhaustiveSearch.all_scores", "score", bad[:3], [want[k] for k, _ in bad[:3]])
         if any(float(alls[i][0]) > float(alls[i + 1][0]) for i in range(len(alls) - 1)):
@@ -1027,7 +1027,7 @@ def _tree(t, rng, hs, out):
                 if cls in (a, b):
                     continue
                 gotw = float(Wm[cols.index(vn[a])][cols.index(vn[b])])
-                if abs(gotw - val) > 1e-9 or abs(float(Wm[cols.index(vn[b])][cols.index(vn[a])]) - val) > 1e-9:
+                if not (abs(gotw - val) <= 1e-9) or not (abs(float(Wm[cols.index(vn[b])][cols.index(vn[a])]) - val) <= 1e-9):
                     bad.append([a, b, gotw, val])
             if bad:
                 out["fails"].append({"api": "TreeSearch._get_weights", "clause": "mutual_information_value", "features": {"type": etype},
